@@ -20,7 +20,8 @@ fn vec_of<T: Arb>(u: &mut Unstructured<'_>, min: usize, max: usize) -> Result<Ve
 
 impl Arb for Seed32 {
     fn arb(u: &mut Unstructured<'_>) -> Result<Self> {
-        Ok(match u.int_in_range(0..=8u8)? {
+        Ok(match u.int_in_range(0..=9u8)? {
+            9 => Seed32::RareSampler(u.arbitrary()?),
             8 => Seed32::SourceConst(u.arbitrary()?),
             0 => Seed32::Zero,
             1 => Seed32::Ones,
@@ -237,7 +238,7 @@ impl Arb for c13::Op {
             7 | 8 | 9 => c13::Op::Sign { sk: u.arbitrary()?, msg: msg(u, 1024)?, ctx: ctx(u, true)?, mode: u.int_in_range(0..=3)?, rnd: Seed32::arb(u)? },
             10 => c13::Op::InternalSign { sk: u.arbitrary()?, msg: msg(u, 1024)?, ctx: ctx(u, true)?, rnd: Seed32::arb(u)? },
             11 | 12 | 13 => c13::Op::Verify { pk: u.arbitrary()?, sig: c13::SigSrc::arb(u)?, msg: msg(u, 1024)?, ctx: ctx(u, true)?, mode: u.int_in_range(0..=3)? },
-            14 => c13::Op::InternalVerify { pk: u.arbitrary()?, sig: c13::SigSrc::arb(u)?, msg: msg(u, 1024)? },
+            14 => c13::Op::InternalVerify { pk: u.arbitrary()?, sig: c13::SigSrc::arb(u)?, msg: msg(u, 1024)?, ctx: if u.ratio(2, 3)? { Some(ctx(u, true)?) } else { None } },
             15 => c13::Op::SkIntoBytes(u.arbitrary()?),
             16 => c13::Op::PkIntoBytes(u.arbitrary()?),
             17 => c13::Op::GetPublicKey(u.arbitrary()?),
